@@ -62,6 +62,19 @@ def setup(sb, data, cfg):
         dest = w / inp
     if cfg["dest_exists"] and dest is not None and dest != w / inp and dest.parent.is_dir():
         dest.write_bytes(OLD)
+    # a destination that has a second name (hard link): the other name is either the input itself or a bystander
+    hl = cfg.get("hardlink")
+    if hl and dest is not None and dest.parent.is_dir() and dest != w / inp:
+        try:
+            if dest.exists():
+                dest.unlink()
+            if hl == "to-input":
+                os.link(w / inp, dest)
+            else:
+                (w / "alias-of-destination.skops").write_bytes(OLD)
+                os.link(w / "alias-of-destination.skops", dest)
+        except OSError:
+            pass
     # files whose names look like somebody's temporary files next to the destination are bystanders too
     if dest is not None and dest.parent.is_dir():
         for suffix in (".tmp", ".bak", "~"):
@@ -293,6 +306,10 @@ def run(ctx):
     for output in ("bare", "nested", "absolute"):
         plan.append((objects[1], dict(proto=0, output=output, inplace=False, dest_exists=True, other_fs=True), True))
     plan.append((objects[2], dict(proto=1, output="none", inplace=True, dest_exists=False, other_fs=True), True))
+    # destinations that are hard links (of the input / of a bystander)
+    for hl in ("to-input", "to-other"):
+        for output in ("bare", "nested"):
+            plan.append((objects[0], dict(proto=0, output=output, inplace=False, dest_exists=True, other_fs=False, hardlink=hl), True))
     # inputs whose own name looks like a temporary name of the destination
     for nm, output in (("out.skops.tmp", "bare"), ("out.skops.bak", "bare"), ("tmpdir", "bare"), ("out.skops~", "bare")):
         plan.append((objects[0], dict(proto=0, output=output, inplace=False, dest_exists=True, other_fs=False, input_name=nm), True))
